@@ -148,7 +148,7 @@ def _build(tree, cdir):
     for point, g in info['grammars'].items():
         ginfo[point] = {'productions': [[p.lhs, p.syms, p.action] for p in g.prods],
                         'leaves': {k: [t for _, t in v] for k, v in info['leaves'][point].items()}}
-    json.dump({'grammars': ginfo, 'harness_files': info['harness_files'], 'kf_active': kf_active},
+    json.dump({'grammars': ginfo, 'harness_files': info['harness_files'], 'kf_active': kf_active, 'skipped': info.get('skipped', {})},
               open(os.path.join(cdir, 'info.json'), 'w'))
     # 3. native replay binaries (dev profile = the profile Kani models; release = what users run)
     env = dict(ENV, RUSTFLAGS='--cfg verif_native -A warnings')
